@@ -25,6 +25,23 @@ PROPS = {
             "usize arithmetic on idx/cap does not overflow (cap = number of stored rules)",
         ],
     },
+    "C03": {
+        "coq": "Properties/C03.v",
+        "pinchecks": ["PinChecks/PcRoleGraph.v"],
+        "gen": "c03",
+        "level_text": "Coq theorems over Model/RoleGraph.v, for every history of add_link/delete_link/clear and every query: the per-domain "
+                      "edge set refines the set-semantics spec (c03_links_refine), has_link is sound at every depth (c03_sound) and complete "
+                      "for chains shorter than the limit (c03_complete; the queue-drain depth counter is proved <= the BFS level), listings are "
+                      "exactly the neighbours, other domains are untouched; the model is tied to DefaultRoleManager by a differential run "
+                      "(exhaustive short histories with small limits, random long ones around the limit 10)",
+        "level_note": "trusted: Coq kernel, extraction, harness; modelled not verified: petgraph adjacency order (newest edge first), HashMap/HashSet; "
+                      "role/domain matching functions are not modelled (never set)",
+        "explanation": "theorems c03_* over Model/RoleGraph.v; correspondence against casbin::DefaultRoleManager",
+        "assumptions": [
+            "no role_matching_fn / domain_matching_fn is installed (matching functions are not modelled)",
+            "feature `cached` is on in the harness build: the role manager's own has_link cache is exercised by the differential run",
+        ],
+    },
 }
 
 NOT_CLAIMED = {}
